@@ -146,6 +146,8 @@ def present_pair(c, rng, disjoint=False):
         d["B"] = {"fin": list(A["fin"]), "rules": [list(r) for r in A["rules"]]}
         d["bmode"] = rng.choice(["alias", "copy"])
         d["syms"] = syms_of(A)
+    if c.get("op") == "incl" and rng.random() < 0.3:
+        d["relcopy"] = True        # the simulation is handed over as a copy whose source variable is re-used (see harness runIncl)
     if c.get("op") == "incl" and len(A["rules"]) >= 2 and rng.random() < 0.15:
         d["split"] = rng.randint(1, len(A["rules"]) - 1)       # ask-twice mode (see harness BuildMaybeSplit)
     return d
